@@ -16,6 +16,10 @@
 (*            c, e  consumer id and group epoch of the request             *)
 (*            open  the subscription's `closed` channel is not closed      *)
 (*            loop  its subscribe loop (goroutine) has not returned yet    *)
+(*            strm  the CLIENT's stream of a subscription made through the  *)
+(*                  gRPC handler apiServer.Subscribe: "open" (handler still *)
+(*                  serving it) | "ended"; "none" = made through            *)
+(*                  SubscribeInternal (no client stream)                    *)
 (*   reg  = partition.consumers of each server: node -> group -> index     *)
 (*          into subs of the registered member (0 = no entry)              *)
 (*   ldr  = the server that leads the partition now ("L" = the server that *)
@@ -40,6 +44,8 @@
 (*   DoRace(s, q)  the clean-up of the ending subscription s and the       *)
 (*        subscribe q contend for consumersMu at the same time: the two    *)
 (*        critical sections take effect in either order                    *)
+(*   DoResumeAgain  a ResumeStream operation applied to a partition that    *)
+(*        is not paused (a retried / duplicated request): no effect        *)
 (*   DoElect  the controller moves the leadership of the partition to the  *)
 (*        other in-sync replica (electNewPartitionLeader -> ChangeLeader   *)
 (*        -> partition.SetLeader on both servers).  The subscribe loops    *)
@@ -77,6 +83,10 @@ NoGroup == ""
 Nodes == {"L", "F"}
 Other(n) == IF n = "L" THEN "F" ELSE "L"
 Idx == 1..Len(subs)
+
+\* A subscription is closed (subscription.Close): the gRPC handler serving it, if
+\* any, sees `closed` and returns - the client's stream ends.
+Shut(x) == [x EXCEPT !.open = FALSE, !.strm = IF @ = "open" THEN "ended" ELSE @]
 
 Active(ss, s) == ss[s].open /\ ss[s].loop
 ActiveOf(ss, g) == {s \in 1..Len(ss) : ss[s].g = g /\ Active(ss, s)}
@@ -116,10 +126,11 @@ SubscribeF(ss, rg, q) ==
   ELSE IF q.bad THEN
     [subs |-> ss, reg |-> rg, obs |-> [a |-> "Subscribe", err |-> "invalid", id |-> 0]]
   ELSE
-    LET closedPrev == IF ex = 0 THEN ss ELSE [ss EXCEPT ![ex].open = FALSE]
+    LET closedPrev == IF ex = 0 THEN ss ELSE [ss EXCEPT ![ex] = Shut(@)]
         k == Len(ss) + 1 IN
     [subs |-> Append(closedPrev, [n |-> q.n, g |-> q.g, c |-> q.c, e |-> q.e,
-                                  open |-> TRUE, loop |-> TRUE]),
+                                  open |-> TRUE, loop |-> TRUE,
+                                  strm |-> IF q.via = "grpc" THEN "open" ELSE "none"]),
      reg |-> IF q.g = NoGroup \/ (OnlyOpenEnded /\ q.stop # "none") THEN rg
              ELSE [rg EXCEPT ![q.n][q.g] = k],
      obs |-> [a |-> "Subscribe", err |-> "", id |-> k]]
@@ -143,9 +154,9 @@ DoBurst(g, cs, e) ==
        /\ UNCHANGED <<subs, reg>>
      ELSE
        \E k \in 1..n :
-         LET closedPrev == IF ex = 0 THEN subs ELSE [subs EXCEPT ![ex].open = FALSE]
+         LET closedPrev == IF ex = 0 THEN subs ELSE [subs EXCEPT ![ex] = Shut(@)]
              new == [i \in 1..n |-> [n |-> ldr, g |-> g, c |-> cs[i], e |-> e,
-                                     open |-> (i = k), loop |-> TRUE]] IN
+                                     open |-> (i = k), loop |-> TRUE, strm |-> "none"]] IN
          /\ subs' = closedPrev \o new
          /\ reg' = [reg EXCEPT ![ldr][g] = Len(subs) + k]
          /\ obs' = [a |-> "Burst", err |-> "", id |-> n]
@@ -153,7 +164,7 @@ DoBurst(g, cs, e) ==
 \* subscription.Close()
 DoCancelByClient(s) ==
   /\ s \in Idx
-  /\ subs' = [subs EXCEPT ![s].open = FALSE]
+  /\ subs' = [subs EXCEPT ![s] = Shut(@)]
   /\ obs' = [a |-> "Cancel", err |-> "", id |-> s]
   /\ UNCHANGED <<reg, ldr>>
 
@@ -174,7 +185,9 @@ RemoveById(ss, rg, s) ==
   ELSE IF rg[n][g] # 0 /\ ss[rg[n][g]].c = ss[s].c THEN [rg EXCEPT ![n][g] = 0] ELSE rg
 
 LoopExitF(ss, rg, s) ==
-  [subs |-> [ss EXCEPT ![s].loop = FALSE],
+  \* (a loop served by the gRPC handler ends because the client's context ended: the
+  \* handler returns as well and closes the subscription on its way out)
+  [subs |-> [ss EXCEPT ![s] = [(IF @.strm = "open" THEN Shut(@) ELSE @) EXCEPT !.loop = FALSE]],
    reg |-> IF CleanupById THEN RemoveById(ss, rg, s) ELSE RemoveBySub(ss, rg, s),
    obs |-> [a |-> "LoopExit", err |-> "", id |-> s]]
 
@@ -195,6 +208,14 @@ DoRace(s, q) ==
            so == IF exitFirst THEN r2.obs ELSE r1.obs IN
        /\ subs' = r2.subs /\ reg' = r2.reg
        /\ obs' = [a |-> "Race", err |-> so.err, id |-> so.id]
+
+\* A ResumeStream operation that reaches the servers AGAIN while the partition runs
+\* (two requests that both saw it paused, a retried request): metadataAPI.
+\* ResumePartition finds the partition not paused and does nothing - in particular
+\* the partition OBJECT (with its group table and its subscriptions) stays.
+DoResumeAgain ==
+  /\ obs' = [a |-> "Resume", err |-> "", id |-> 0]
+  /\ UNCHANGED <<subs, reg, ldr>>
 
 \* The controller elects the other in-sync replica (metadataAPI.
 \* electNewPartitionLeader, Raft operation CHANGE_LEADER, partition.SetLeader on
@@ -287,6 +308,14 @@ P_Elect ==
   /\ \A s \in Idx : Active(subs', s) => Active(subs, s)
   /\ \A s \in Idx : subs'[s].g = subs[s].g /\ subs'[s].c = subs[s].c /\ subs'[s].e = subs[s].e
 
+\* a repeated resume of a running partition starts nothing
+P_Resume == P_Elect
+
+\* "replaces AND CANCELS": the client's stream of a subscription that was closed
+\* (replaced, cancelled) has ended - the handler above the partition must not go on
+\* serving it
+C13_StreamEnded == \A s \in Idx : subs[s].strm = "open" => subs[s].open
+
 \* Situation of the open finding C13-member-stranded-on-former-leader: an active
 \* group member is served by a server that does not lead the partition (any more)
 Stranded(ss, l) == \E s \in 1..Len(ss) : ss[s].g # NoGroup /\ Active(ss, s) /\ ss[s].n # l
@@ -304,4 +333,5 @@ TypeOK == /\ \A s \in Idx : subs[s].open \in BOOLEAN /\ subs[s].loop \in BOOLEAN
           /\ \A s \in Idx : subs[s].n \in Nodes
           /\ \A n \in Nodes, g \in Groups : reg[n][g] \in 0..Len(subs)
           /\ ldr \in Nodes
+          /\ \A s \in Idx : subs[s].strm \in {"none", "open", "ended"}
 =============================================================================
